@@ -25,7 +25,12 @@ def rule_models(tier):
         'rx_exhaust': [ma([A], [B], 2.0)],                                                # irreversible: the reactions run out mid-run
         'rx_rule_rate': [gen([A], [B], ('*', ID('p'), ID(A))), ma([B], [A], 0.5)],      # rate reads a rule-assigned parameter
         'rx_rule_species': [gen([A], [B], ('*', ('num', 0.4), ('*', ID(X), ID(A)))), ma([B], [A], 0.5)],  # rate reads a rule-assigned species
+        # the product arrives later, from the delay queue, typically in an interval in which no reaction fires (the immediate
+        # part runs out): the rules must hold on the row after the arrival as well.  Delay-aware modes only.
+        'rx_delayed': [dict(ma([A], [], 2.0), delay=dict(type='fixed', delay=0.3, reactants=[], products=[B]))],
+        'rx_delayed_slow': [dict(ma([A], [], 0.7), delay=dict(type='fixed', delay=0.55, reactants=[], products=[B, B])), ma([B], [], 0.1)],
     }
+    delayed_sets = ('rx_delayed', 'rx_delayed_slow')
     out = []
     base_x0 = {A: 2, B: 0, X: 0, Y: 0, C: 0}
 
@@ -58,6 +63,8 @@ def rule_models(tier):
            [dict(type='assignment', target=X, rhs=('+', ('*', NUM(2), ID(A)), NUM(3)), freq=0.5),
             dict(type='assignment', target=Y, rhs=('+', ID(A), ('*', NUM(2), ID(B))), freq='repeated')],
            {'p': 1.0}, ['fixed_point'], x0=dict(base_x0, X=1))
+        if rx in delayed_sets:
+            continue
         # rules that read the cell volume: a parameter target and a species target (volume reads 1 where no volume is in play)
         if rx in ('rx1', 'rx_rule_rate', 'rx_exhaust'):
             mk('volume_rules_%s' % rx, rx,
@@ -318,6 +325,8 @@ def run(ctx):
         for mode in MODES:
             if 'time' in tags and mode != 'det':
                 continue        # the claim about stochastic rows is limited to rules over species and parameters
+            if '_rx_delayed' in name and mode not in ('delay', 'delayvol'):
+                continue
             for grid in (['u5'] if ctx.quick else ['u5', 'u4h']):
                 if mode == 'det' and grid != 'u5':
                     continue
